@@ -70,9 +70,44 @@ def gen_case(rng):
     return {'lineage': lin, 'principals': principals, 'permission': rng.choice(PERMS), 'falsy': falsy}
 
 
+def _small_scope():
+    """every lineage of depth 1 with an ACL of length <= 2, and of depth 2 with ACLs of length <= 1 (or no
+    __acl__), over actions {Allow, Deny} x principals {Everyone, alice} x permission forms {ALL, 'view', [],
+    ['view']}, x every subset of {Everyone, alice} as principals, permission 'view'"""
+    import itertools
+    forms = ['ALL', 'view', {'kind': 'list', 'names': []}, {'kind': 'list', 'names': ['view']}]
+    aces = [[a, p, f] for a in ('Allow', 'Deny') for p in ('system.Everyone', 'alice') for f in forms]
+    acls1 = [None, []] + [[e] for e in aces]
+    acls2 = acls1 + [[e1, e2] for e1 in aces for e2 in aces]
+    subsets = [[], ['system.Everyone'], ['alice'], ['alice', 'system.Everyone']]
+
+    def loc(a):
+        return None if a is None else {'callable': False, 'aces': a}
+    for a in acls2:
+        for ps in subsets:
+            yield {'lineage': [loc(a)], 'principals': ps, 'permission': 'view', 'falsy': [False]}
+    for a in acls1:
+        for b in acls1:
+            for ps in subsets:
+                yield {'lineage': [loc(a), loc(b)], 'principals': ps, 'permission': 'view', 'falsy': [False, False]}
+
+
+_SCOPE = {'n': 0}
+
+
 def generate(rng, tier, n):
+    if tier == 'thorough':
+        for c in _small_scope():
+            _SCOPE['n'] += 1
+            yield c
     for _ in range(n):
         yield gen_case(rng)
+
+
+def evidence_extra(stats, tier):
+    if tier == 'thorough' and _SCOPE['n'] and not stats.get('violations') and not stats.get('disagreements'):
+        return {'exhaustive_subruns': [{'what': _small_scope.__doc__.strip(), 'cases': _SCOPE['n'], 'exhaustive': True}]}
+    return {}
 
 
 def valid(case):
